@@ -408,7 +408,10 @@ class Program:
         return sorted([f for f in self.fns.values() if f.get("trait_item") == trait_method], key=lambda f: f.name)
 
     def closures_of(self, fname):
-        return sorted([f for f in self.fns.values() if f.get("parent") == fname], key=lambda f: f.name)
+        # closures defined in a helper that was spliced into fname count as fname's own
+        host = self.fns.get(fname)
+        parents = {fname} | set(host.d.get("inlined", []) if host is not None else [])
+        return sorted([f for f in self.fns.values() if f.get("parent") in parents], key=lambda f: f.name)
 
     def tystr(self, crate, tid):
         return self.tys[crate][tid]["s"]
